@@ -10,7 +10,10 @@ use crate::run::*;
 use crate::Ctx;
 use std::panic::{catch_unwind, AssertUnwindSafe};
 use std::sync::{mpsc, Arc, Barrier};
-use std::time::Duration;
+
+/// seconds without any thread finishing AND without any render in the process making progress
+/// before a round is declared deadlocked (see `run::recv_watch`)
+const IDLE_LIMIT: u64 = 45;
 
 /// First simultaneous use of ONE lazily compiled partial that takes long to compile: all threads are
 /// released together and touch it at once, so that every thread finds the cache empty.
@@ -59,9 +62,9 @@ fn hot_first_touch(ctx: &mut Ctx) {
         let mut got = Vec::new();
         let mut deadlock = false;
         for _ in 0..(3 * nthreads) {
-            match rx.recv_timeout(Duration::from_secs(30)) {
-                Ok(v) => got.push(v),
-                Err(_) => {
+            match recv_watch(&rx, IDLE_LIMIT) {
+                Some(v) => got.push(v),
+                None => {
                     deadlock = true;
                     break;
                 }
@@ -76,6 +79,9 @@ fn hot_first_touch(ctx: &mut Ctx) {
             worst = "POISONED".into();
         } else if mismatch > 0 && worst == "hot" {
             worst = format!("MISMATCH:{}", mismatch);
+        }
+        if deadlock {
+            break; // the stuck threads stay stuck; further rounds would only wait again
         }
     }
     // one line per template: the sequential result is what the model must predict; the label says
@@ -124,6 +130,7 @@ fn shared_template_own_data(ctx: &mut Ctx) {
                 barrier.wait();
                 for n in 0..200 {
                     let di = (th + n) % datas.len();
+                    progress();
                     let res = catch_unwind(AssertUnwindSafe(|| tmpl.render(&datas[di])));
                     let obs = match res {
                         Ok(Ok(s)) => Obs::Ok(s),
@@ -142,7 +149,7 @@ fn shared_template_own_data(ctx: &mut Ctx) {
         drop(tx);
         let mut bad = 0;
         let mut got = 0;
-        while let Ok((di, o)) = rx.recv_timeout(Duration::from_secs(30)) {
+        while let Some((di, o)) = recv_watch(&rx, IDLE_LIMIT) {
             got += 1;
             if o != reference[di].tokens() {
                 bad += 1;
@@ -150,6 +157,7 @@ fn shared_template_own_data(ctx: &mut Ctx) {
         }
         if got < nthreads * 200 {
             worst = "DEADLOCK".into();
+            break;
         } else if bad > 0 && worst == "own-data" {
             worst = format!("MISMATCH:{}", bad);
         }
@@ -164,6 +172,7 @@ pub fn run(ctx: &mut Ctx) {
     shared_template_own_data(ctx);
     let rounds = if ctx.tier_thorough { 20_000 } else { 250 };
     let mut g = Gen::new(ctx.seed ^ 0xC20);
+    let mut deadlocks = 0;
     for round in 0..rounds {
         g.allow_errors = round % 2 == 0;
         let sc = scenario(&mut g);
@@ -206,6 +215,7 @@ pub fn run(ctx: &mut Ctx) {
                     let obs = match (&pre[ti], use_shared_template) {
                         (Some(t), true) => {
                             // render a template object shared by all threads
+                            progress();
                             let res = catch_unwind(AssertUnwindSafe(|| t.render(&*data)));
                             match res {
                                 Ok(Ok(s)) => Obs::Ok(s),
@@ -226,12 +236,12 @@ pub fn run(ctx: &mut Ctx) {
         let mut finished = 0;
         let mut deadlock = false;
         while finished < nthreads {
-            match rx.recv_timeout(Duration::from_secs(20)) {
-                Ok(v) => {
+            match recv_watch(&rx, IDLE_LIMIT) {
+                Some(v) => {
                     got.extend(v);
                     finished += 1;
                 }
-                Err(_) => {
+                None => {
                     deadlock = true;
                     break;
                 }
@@ -253,6 +263,12 @@ pub fn run(ctx: &mut Ctx) {
         // one line per template of the round: the sequential result is what the model must predict
         for (ti, t) in templates.iter().enumerate() {
             ctx.emit(render_case("c20", &kind, t, &sc.data, &sc.partials, &reference[ti]));
+        }
+        if deadlock {
+            deadlocks += 1;
+            if deadlocks >= 3 {
+                break; // three witnesses are enough; every further one costs the whole idle limit
+            }
         }
     }
 }
